@@ -84,6 +84,9 @@ func funcLitToLambdaExpr(v *ast.FuncLit, ret *ast.Expr) {
 	}
 	var lsh []*ast.Ident
 	for _, p := range v.Type.Params.List {
+		if _, ok := p.Type.(*ast.Ellipsis); ok { // a lambda parameter can't be variadic
+			return
+		}
 		if p.Names == nil {
 			lsh = append(lsh, ast.NewIdent("_"))
 		} else {
